@@ -397,6 +397,7 @@ static Verdict check_case(PropId prop, const GCase& c, Stats& st)
                 }
                 bool nl_before = false; for (size_t i = 1; i < e.L.toks.size(); ++i) if (e.L.toks[i].line > 1) nl_before = true;
                 if (e.L.toks.size() >= 2 && nl_before) ++interesting;
+                if (!e.rr.discarded_tokens.empty() && e.rr.error_tokens.size() + (o.has ? 1 : 0) >= 2) { ++interesting; case_labels.push_back("position-observed-after-recovery-discarded-terms"); }
             }
             if (o.has) ++acc; else ++rej;
             if (prop == C09 && !o.has && (e.rr.error_token > 0 || e.rr.lex_error_reached)) { ++interesting; if (e.rr.error_token == int(e.L.toks.size())) case_labels.push_back("error-at-eof"); if (e.rr.lex_error_reached) case_labels.push_back("lexical-error"); }
@@ -546,7 +547,7 @@ struct GP
         case C05: return gen_case(ch, gg::PRECEDENCE, 16, false, false);
         case C08: return gen_case(ch, gg::RECOVERY, 14, true, false);
         case C09: return gen_case(ch, gg::CONFLICT_FREE, 8, true, true);
-        case C10: return gen_case(ch, gg::CONFLICT_FREE, 12, true, true);
+        case C10: return gen_case(ch, ch.chance(1, 2) ? gg::RECOVERY : gg::CONFLICT_FREE, 12, true, true);   // positions after recovery-skipped terms too
         case C11: return gen_case(ch, gg::ANY, 4, false, false);
         default:  return gen_case(ch, gg::ANY, 8, true, true);
         }
